@@ -19,12 +19,16 @@ LEVEL = "model_checking"
 HOOK_FILE = "protocol/rpcprovider/resource_limiter_verif.go"
 CALLER_LABELS = {"exec", "presend", "waiting", "fin"}
 WORKER_LABELS = {"idle", "checked", "exec", "send"}
-REPRO_TRIES = 12   # a Go select with two ready cases picks one at random
+REPRO_TRIES = 8   # a Go select with two ready cases picks one at random
+CTX_WHY = {"canceled": "caller-cancelled-after-exec-started",
+           "queue_timeout": "queue-deadline-after-exec-started",
+           "deadline_exceeded": "queue-deadline-after-exec-started"}
+TOLERANT, STRICT = "Trace_Limiter.cfg", "Trace_Limiter_strict.cfg"
 
 
 def _norm(b):
     par = dict(b["par"])
-    for k in ("cal", "can"):
+    for k in ("cal", "ev"):
         if isinstance(par.get(k), list):
             par[k] = {}
     return {"par": par, "sched": list(b["sched"])}
@@ -34,17 +38,37 @@ def _need_hooks():
     p = os.path.join(vlib.REPO, HOOK_FILE)
     if not os.path.exists(p):
         raise vlib.Infra("schedule hooks missing in %s (no %s): apply /verif/hooks/rpcprovider_limiter.patch "
-                         "(after fixes/F10) or run with VERIF_REPO=<tree with hooks>" % (vlib.REPO, HOOK_FILE))
+                         "or run with VERIF_REPO=<tree with hooks>" % (vlib.REPO, HOOK_FILE))
     src = open(p).read()
     for sym in ("VerifLimiterYield", "VerifSetHeavyQueueTimeout", "VerifState"):
         if sym not in src:
             raise vlib.Infra("hook symbol %s missing in %s" % (sym, p))
 
 
-def _signature(name, ev, par):
-    """canonical class of the failing state"""
-    if name == "ErrMeansNotRun":
-        return "caller-returns-error-but-request-runs"
+def _f10_class(prev, r):
+    """r = the first real state in which some caller has res = err although its request was executed.
+    Returns (caller, signature). Only 'Acquire returned the error of the done queue ctx through the ctx case after the
+    execution had started' is the known class F10; everything else gets its own signature (VIOLATION)."""
+    bad = [c for c in sorted(r.get("res", {})) if r["res"][c] == "err" and r["exec"].get(c, 0) > 0]
+    if not bad:
+        return None, "ErrMeansNotRun"
+    c = bad[0]
+    why = str(r["why"].get(c))
+    if r.get("p") != c:
+        return c, "request-executed-after-caller-got-error:" + why.split(":")[0]
+    if (why in CTX_WHY and r["exret"].get(c, -1) >= 1 and prev["exec"].get(c, 0) >= 1 and r["first"].get(c) != "none"
+            and prev["pc"].get(c) == "waiting"):
+        if why == "canceled" and r["first"].get(c) != "cancel":
+            return c, "ErrMeansNotRun:canceled-without-cancel"
+        if why != "canceled" and r["first"].get(c) != "deadline":
+            return c, "ErrMeansNotRun:deadline-without-deadline"
+        return c, CTX_WHY[why]
+    return c, "caller-got-error-but-request-ran:" + why.split(":")[0]
+
+
+def _signature(name, prev, ev):
+    if name in ("ErrMeansNotRun", "ErrMeansNotRunModF10"):
+        return _f10_class(prev, ev)[1]
     return name
 
 
@@ -57,20 +81,29 @@ def _bin():
     return _BIN[0]
 
 
-def _replay(ctx, behs, tag, conf=True):
+def _replay(ctx, behs, tag, conf=True, cfg=TOLERANT):
+    """returns (bad, stats, rows)"""
     binp = _bin()
     bpath = os.path.join(ctx.work, tag + "_behaviours.json")
+    rpath = os.path.join(ctx.work, tag + "_raw.ndjson")
     tpath = os.path.join(ctx.work, tag + "_trace.ndjson")
     vlib.write_json(bpath, behs)
-    p = vlib.run_harness(binp, [bpath, tpath], timeout=3600)
+    p = vlib.run_harness(binp, [bpath, rpath], timeout=3600)
     try:
         hs = json.loads(p.stdout.strip().splitlines()[-1])
     except Exception:
         raise vlib.Infra("harness printed no summary: %s" % p.stdout[-500:])
-    rows = vlib.read_ndjson(tpath)
+    # behaviours in which a real-time queue deadline could have fired before its scheduled event are discarded
+    allchunks = vlib.split_traces(vlib.read_ndjson(rpath))
+    chunks = [ch for ch in allchunks if not any(r["ev"] == "discard" for r in ch)]
+    discarded = len(allchunks) - len(chunks)
+    rows = [r for ch in chunks for r in ch]
     if not rows:
+        if discarded:
+            return None, {"behaviours": 0, "discarded": discarded}, []
         raise vlib.Infra("dead driver: empty trace")
-    tr = lambda mode: vlib.tlc_trace(ctx, "Trace_Limiter", "Trace_Limiter.cfg", tpath, env={"VERIF_MODE": mode},
+    vlib.write_ndjson(tpath, rows)
+    tr = lambda mode: vlib.tlc_trace(ctx, "Trace_Limiter", cfg, tpath, env={"VERIF_MODE": mode},
                                      tag=tag + "_" + mode, timeout=3000)
     # pass 1: Conf mode with the invariants switched on (conforming steps produce exactly the observed states, so the
     # invariants are evaluated on real observations); only if it does not go through, pass 2 (Obs mode) decides whether
@@ -83,15 +116,19 @@ def _replay(ctx, behs, tag, conf=True):
                 raise vlib.Infra("Obs-mode trace validation stopped at line %s (malformed trace?) see %s" % (
                     res["reached"], res["outfile"]))
             line = vlib.violated_line(res) or (res["reached"] or 1)
-            bi, chunk, off = vlib.locate_trace(rows, line)
+            _, chunk, off = vlib.locate_trace(rows, line)
             name = res["violated"].split(":", 1)[1]
             ev = rows[line - 1] if line - 1 < len(rows) else {}
-            sig = _signature(name, ev, behs[bi]["par"])
-            what = ("real ResourceLimiter violates %s after schedule %s of scenario %s: pc=%s wpc=%s res=%s exec=%s done=%s "
-                    "permH=%s permN=%s qlen=%s" % (name, [r["p"] for r in chunk[1:off]], json.dumps(behs[bi]["par"], sort_keys=True),
-                                                    ev.get("pc"), ev.get("wpc"), ev.get("res"), ev.get("exec"), ev.get("done"),
-                                                    ev.get("permH"), ev.get("permN"), ev.get("qlen")))[:900]
-            return {"sig": sig, "beh": behs[bi], "what": what}, None
+            prev = rows[line - 2] if line >= 2 else ev
+            beh = behs[chunk[0]["beh"]]
+            sig = _signature(name, prev, ev)
+            what = ("real ResourceLimiter violates %s after schedule %s of scenario %s: pc=%s wpc=%s res=%s why=%s exec=%s done=%s "
+                    "exret=%s first=%s permH=%s permN=%s qlen=%s" % (
+                        name.replace("ModF10", " (beyond the known F10 class)"), [r["p"] for r in chunk[1:off]],
+                        json.dumps(beh["par"], sort_keys=True), ev.get("pc"), ev.get("wpc"), ev.get("res"), ev.get("why"),
+                        ev.get("exec"), ev.get("done"), ev.get("exret"), ev.get("first"), ev.get("permH"), ev.get("permN"),
+                        ev.get("qlen")))[:1100]
+            return {"sig": sig, "beh": beh, "what": what}, None, rows
         if hs.get("blocked"):
             raise vlib.Infra("drift: %d behaviours had a goroutine that did not reach its next yield point although the "
                              "spec said the step would not block (blocked on a real lock / channel)" % hs["blocked"])
@@ -99,13 +136,13 @@ def _replay(ctx, behs, tag, conf=True):
             line = (res2["reached"] or 0) + 1
             if res2["violated"] != "postcondition":
                 line = vlib.violated_line(res2) or line
-            bi, chunk, off = vlib.locate_trace(rows, min(line, len(rows)))
+            line = min(line, len(rows))
+            _, chunk, off = vlib.locate_trace(rows, line)
             raise vlib.Infra("drift: the real code is not a refinement of Limiter.tla at trace line %d (behaviour %d step %d: "
                              "%s; %s) - the model mis-predicted the code; see %s" % (
-                                 line, bi, off, json.dumps(rows[min(line, len(rows)) - 1])[:300], res2["violated"], res2["outfile"]))
-    chunks = vlib.split_traces(rows)
-    cl, wl, outs = set(), set(), set()
-    skipped = cancels = late = 0
+                                 line, chunk[0]["beh"], off, json.dumps(rows[line - 1])[:300], res2["violated"], res2["outfile"]))
+    cl, wl, outs, whys = set(), set(), set(), set()
+    skipped = events = late = 0
     for ch in chunks:
         par = ch[0]["par"]
         for r in ch[1:]:
@@ -118,27 +155,60 @@ def _replay(ctx, behs, tag, conf=True):
             elif r["p"] in r["pc"]:
                 cl.add(r["pc"][r["p"]])
             else:
-                cancels += 1
-                c = (par.get("can") or {}).get(r["p"])
+                events += 1
+                c = ((par.get("ev") or {}).get(r["p"]) or {}).get("c")
                 if c and r["exec"].get(c, 0) > r["done"].get(c, 0):
                     late += 1
         outs |= set(ch[-1]["res"].values())
+        whys |= set(ch[-1]["why"].values())
     return None, {"behaviours": len(chunks), "events": len(rows), "caller_labels": cl, "worker_labels": wl,
-                  "outcomes": outs, "skipped": skipped, "cancels": cancels, "cancel_while_running": late}
+                  "outcomes": outs, "whys": whys, "skipped": skipped, "env_events": events, "ctx_done_while_running": late,
+                  "discarded": discarded}, rows
+
+
+def _f10_witnesses(rows, behs):
+    """candidates of the known class per signature: behaviours whose trace contains a caller returning a ctx error after its
+    execution started; deterministic ones (result not yet sent: worker still executing that request) first."""
+    cands = {}
+    for ch in vlib.split_traces(rows):
+        prev = ch[0]
+        for r in ch[1:]:
+            c = r.get("p")
+            if (r["ev"] == "step" and c in r.get("res", {}) and r["res"][c] == "err" and prev["res"][c] == "none"
+                    and r["exec"].get(c, 0) > 0):
+                _, sig = _f10_class(prev, r)
+                det = prev.get("wpc") == "exec" and prev.get("wcur") == c
+                cands.setdefault(sig, []).append((0 if det else 1, len(ch), ch[0]["beh"]))
+                break
+            prev = r
+    return {sig: [behs[bi] for _, _, bi in sorted(v)[:3]] for sig, v in cands.items()}
 
 
 def _decide(ctx, behs, tag):
-    bad, st = _replay(ctx, behs, tag)
+    bad, st, rows = _replay(ctx, behs, tag)
     if bad:
         again = None
         for i in range(REPRO_TRIES):
-            again, _ = _replay(ctx, [bad["beh"]], "%s_repro%d" % (tag, i), conf=False)
+            again, _, _ = _replay(ctx, [bad["beh"]], "%s_repro%d" % (tag, i), conf=False)
             if again is not None:
                 break
         if again is None:
             raise vlib.Infra("counter-example not reproduced in %d fresh runs: %s" % (REPRO_TRIES, bad["sig"]))
         ctx.violation(again["sig"], again["what"], {"behaviours": [bad["beh"]]})
         return None
+    # the property as stated (ErrMeansNotRun without tolerance): every class of witness seen in the traces is re-executed
+    # alone and decided by TLC with the strict configuration; its signature decides known finding vs. violation
+    seen = {}
+    for sig, cand in sorted(_f10_witnesses(rows, behs).items()):
+        got = None
+        for i, beh in enumerate(cand * 2):
+            got, _, _ = _replay(ctx, [beh], "%s_f10_%d_%d" % (tag, len(seen), i), conf=False, cfg=STRICT)
+            if got is not None and got["sig"] == sig:
+                ctx.violation(got["sig"], got["what"], {"behaviours": [beh], "cfg": "strict"})
+                break
+            got = None
+        seen[sig] = got is not None
+    st["strict_witness_classes"] = seen
     return st
 
 
@@ -170,7 +240,7 @@ def run(ctx):
             uniq.append(b)
     behs = uniq
     ctx.cov["evaluations"] = len(behs)
-    ctx.cov["rule"] = ("schedule = scenario (limits, caller kinds, expired deadlines, cancel events) + sequence of process names "
+    ctx.cov["rule"] = ("schedule = scenario (limits, caller kinds, queue deadlines never/expired/late, cancel and deadline events) + sequence of process names "
                        "chosen by TLC (-simulate seed=%d over ScnAll%s); non-trivial = some request goes through the queue "
                        "(the worker is scheduled); distinct by scenario+schedule" % (
                            ctx.seed, "" if ctx.quick else " + every schedule of ScnEnum"))
@@ -179,7 +249,8 @@ def run(ctx):
     ctx.assumptions += [
         "goroutines are parked before every blocking channel / semaphore operation and released only when the spec says the "
         "operation will not block (a worker registered as semaphore waiter is represented by the worker parked before Acquire)",
-        "the 30 s queue deadline is modelled as 'already expired at enqueue' or 'never'; cancellation happens at any step",
+        "the 30 s queue deadline is 'never', 'already expired at enqueue' or a 300 ms real timer whose expiry is an environment "
+        "step (behaviours in which it could fire earlier are discarded); cancellation happens at any step",
         "code between two yield points runs atomically in the replay; bounded scenarios (specs/Limiter.tla Scn*)",
         "yield points are the hooks of hooks/rpcprovider_limiter.patch (build tag verif)",
     ]
@@ -191,14 +262,20 @@ def run(ctx):
     ctx.cov["caller_labels"] = sorted(st["caller_labels"])
     ctx.cov["worker_labels"] = sorted(st["worker_labels"])
     ctx.cov["outcomes"] = sorted(st["outcomes"])
-    ctx.cov["cancel_events"] = st["cancels"]
-    ctx.cov["cancel_while_request_runs"] = st["cancel_while_running"]
+    ctx.cov["env_events"] = st["env_events"]
+    ctx.cov["ctx_done_while_request_runs"] = st["ctx_done_while_running"]
+    ctx.cov["return_classes"] = sorted(st["whys"])
+    ctx.cov["discarded_real_time_behaviours"] = st["discarded"]
+    ctx.cov["strict_witness_classes_reproduced"] = st["strict_witness_classes"]
     ctx.notes.append("simulated %d, enumerated %d, distinct %d schedules" % (n_sim, n_enum, len(behs)))
     miss = (CALLER_LABELS - st["caller_labels"]) | (WORKER_LABELS - st["worker_labels"])
     if miss or not {"ok", "err"} <= st["outcomes"]:
         raise vlib.Infra("vacuous: yield points %s never reached / outcomes %s" % (sorted(miss), sorted(st["outcomes"])))
-    if st["cancel_while_running"] == 0:
-        raise vlib.Infra("vacuous: no schedule cancels a caller while its queued request is executing")
+    if st["ctx_done_while_running"] == 0:
+        raise vlib.Infra("vacuous: no schedule cancels / times out a caller while its queued request is executing")
+    if st["discarded"] > st["behaviours"]:
+        raise vlib.Infra("more than half of the behaviours were discarded because the machine was too slow for the real-time "
+                         "queue deadline (%d of %d)" % (st["discarded"], st["discarded"] + st["behaviours"]))
     if st["skipped"]:
         raise vlib.Infra("drift: %d schedule steps addressed finished processes" % st["skipped"])
 
@@ -207,10 +284,11 @@ def replay(ctx, path):
     _need_hooks()
     with open(path) as f:
         obj = json.load(f)
+    cfg = STRICT if obj.get("cfg") == "strict" else TOLERANT
     bad = None
-    for i in range(REPRO_TRIES // 2):
-        bad, _ = _replay(ctx, obj["behaviours"], "replay%d" % i, conf=False)
+    for i in range(REPRO_TRIES):
+        bad, _, _ = _replay(ctx, obj["behaviours"], "replay%d" % i, conf=False, cfg=cfg)
         if bad:
             break
     if bad:
-        ctx.violation(bad["sig"], "replayed schedule still fails: " + bad["what"], {"behaviours": [bad["beh"]]})
+        ctx.violation(bad["sig"], "replayed schedule still fails: " + bad["what"], {"behaviours": [bad["beh"]], "cfg": obj.get("cfg", "")})
